@@ -68,15 +68,13 @@ Proof. exact select_flow_ends_alive. Qed.
    with "a" failing the next pick is 15 mod 2 = 1 -> "c" *)
 Example C07_example :
   let a := ([97%N], 1%N) in let b := ([98%N], 2%N) in let c := ([99%N], 3%N) in
-  NoDup (map naddr [b; a; c]) /\ Permutation [b; a; c] [c; b; a] /\
-  proposer 5 7 [1%N; 2%N] [b; a; c] = Some a /\ proposer 5 7 [1%N; 2%N] [c; b; a] = Some a /\
-  select_flow 5 7 [1%N; 2%N] [[97%N]] [c; b; a] = Some [a; c].
+  NoDup (map naddr [b; a; c]) /\ Permutation [b; a; c] [c; a; b] /\
+  proposer 5 7 [1%N; 2%N] [b; a; c] = Some a /\ proposer 5 7 [1%N; 2%N] [c; a; b] = Some a /\
+  select_flow 5 7 [1%N; 2%N] [[97%N]] [c; a; b] = Some [a; c].
 Proof.
   cbv zeta. split; [|split; [|vm_compute; auto]].
   - repeat constructor; simpl; intuition discriminate.
-  - apply perm_trans with [b := ([98%N], 2%N)] [([99%N], 3%N); ([98%N], 2%N); ([97%N], 1%N)] || idtac.
-    apply Permutation_sym.
-    eapply perm_trans; [apply perm_swap|]. apply perm_skip. apply perm_swap.
+  - exact (Permutation_rev [([98%N], 2%N); ([97%N], 1%N); ([99%N], 3%N)]).
 Qed.
 
 (* uint64 wrap: height 2^63-1, round 2^64-1, 32 bytes 0xff *)
